@@ -2,6 +2,7 @@
 #include <asl/Date.h>
 #include <stdio.h>
 #include <stdlib.h>
+#include <unistd.h>
 #include <string>
 using namespace asl;
 static long dfy(long y) { auto fd = [](long a, long b) { return a >= 0 ? a / b : -((-a + b - 1) / b); }; return 365 * (y - 1970) + fd(y - 1969, 4) - fd(y - 1901, 100) + fd(y - 1601, 400); }
@@ -19,6 +20,7 @@ static int check_day(long day) {
 	if (c.time() != double(day) * 86400.0) { printf("REPRODUCED construct(%ld-%d-%d) = %.1f, want %.1f\n", y, m, d, c.time(), double(day) * 86400.0); return 1; }
 	printf("OK %ld-%02d-%02d\n", y, m, d); return 0;
 }
+static int check_day_quiet(long day) { fflush(stdout); int fd = dup(1); FILE* nul = freopen("/dev/null", "w", stdout); (void)nul; int r = check_day(day); fflush(stdout); dup2(fd, 1); close(fd); if (r) check_day(day); return r; }
 int main(int argc, char** argv)
 {
 	std::string cmd = argc > 1 ? argv[1] : "";
@@ -29,5 +31,20 @@ int main(int argc, char** argv)
 	if (cmd == "fields") { long y = atol(argv[2]); int m = atoi(argv[3]), d = atoi(argv[4]); Date c(Date::UTC, (int)y, m, d, 0, 0, 0); double want = double(dfy(y) + cum[leap(y)][m] + d - 1) * 86400.0;
 		if (c.time() != want) { printf("REPRODUCED construct(%ld,%d,%d) = %.1f want %.1f\n", y, m, d, c.time(), want); return 1; } printf("OK\n"); return 0; }
 	if (cmd == "parse") { String txt(argv[2]); Date t(txt); printf("OK %f\n", t.time()); return 0; }
+	if (cmd == "battery") {
+		// calendar: every day of 1582..2400, every 97th day of years 1..9999, first/last days and leap days of every century year
+		for (long d = dfy(1582); d < dfy(2401); d++) if (check_day_quiet(d)) return 1;
+		for (long d = dfy(1); d <= dfy(10000) - 1; d += 97) if (check_day_quiet(d)) return 1;
+		for (long y = 100; y <= 9900; y += 100) if (check_day_quiet(dfy(y)) || check_day_quiet(dfy(y + 1) - 1) || check_day_quiet(dfy(y) + 58) || check_day_quiet(dfy(y) + 59) || check_day_quiet(dfy(y) + 60)) return 1;
+		// weekday / time of day at every hour boundary of days on both sides of 1970
+		for (long d = -800; d <= 800; d += 1) for (long sec = 0; sec < 86400; sec += 3599) { DateData u = Date(double(d) * 86400.0 + double(sec)).splitUTC(); int wd = int(((d + 4) % 7 + 7) % 7);
+			if (u.weekDay != wd || u.hours != sec / 3600 || u.minutes != (sec / 60) % 60 || u.seconds != sec % 60) { printf("REPRODUCED day %ld second %ld: weekDay %d h:m:s %d:%d:%d, want weekDay %d %ld:%ld:%ld\n", d, sec, u.weekDay, u.hours, u.minutes, u.seconds, wd, sec / 3600, (sec / 60) % 60, sec % 60); return 1; } }
+		// ISO 8601 texts with numeric zones: the instant is the UTC reading minus the offset
+		{ struct { const char* zone; int offset; } zs[] = { { "Z", 0 }, { "+00:00", 0 }, { "+00:30", 1800 }, { "-00:30", -1800 }, { "+01:00", 3600 }, { "-01:00", -3600 }, { "+05:45", 20700 }, { "-09:30", -34200 }, { "+0130", 5400 }, { "-0130", -5400 }, { "+02", 7200 }, { "-11", -39600 }, { "+14:00", 50400 }, { "+00:01", 60 }, { "-00:01", -60 } };
+		  const char* stamps[] = { "2020-02-29T12:34:56", "1969-12-31T23:59:59", "1970-01-01T00:00:00", "2000-01-01T00:00:00", "1999-12-31T23:59:59", "2038-01-19T03:14:08" };
+		  for (const char* st : stamps) { Date base(String(st) + "Z"); for (auto& z : zs) { Date t(String(st) + z.zone); if (t.time() != base.time() - z.offset) { printf("REPRODUCED Date(\"%s%s\") is %.0f s from the same reading in UTC, the offset says %d\n", st, z.zone, base.time() - t.time(), z.offset); return 1; } } }
+		  Date e("2020-02-29T12:34:56Z"); DateData u = e.splitUTC(); if (u.year != 2020 || u.month != 2 || u.day != 29 || u.hours != 12 || u.minutes != 34 || u.seconds != 56) { printf("REPRODUCED fields of a parsed ISO date\n"); return 1; } }
+		printf("OK\n"); return 0;
+	}
 	return 2;
 }
